@@ -25,6 +25,51 @@ package builder
 //@   loop 0 invariant shape: kc != nil && fresh(kc) && wfParsed(kc) && kc.SortRulesIndexMap != nil && fresh(kc.SortRulesIndexMap) && emptymap(kc.SortRulesIndexMap) && builder.Kc == old(builder.Kc) && held(builder.buildLock)
 //@   loop 1 invariant shape: kc != nil && fresh(kc) && wfParsed(kc) && kc.SortRulesIndexMap != nil && fresh(kc.SortRulesIndexMap) && builder.Kc == old(builder.Kc) && held(builder.buildLock)
 
+// incremental build (C08, C10): every error is reported before the installed rule set is touched; on success the installed
+// container holds old (+) parsed, well formed (sorted, unique names, index map and list agree)
+//@ func (*RuleBuilder).BuildRuleWithIncremental
+//@   props C08 C10
+//@   arith int unchecked
+//@   requires builder != nil && !held(builder.buildLock) && wfKc(builder.Kc)
+//@   ghost OLD = builder.Kc
+//@   ghost RE0 = builder.Kc.RuleEntities
+//@   ghost IM0 = builder.Kc.SortRulesIndexMap
+//@   ghost SA0 unsafe.Pointer = arr(builder.Kc.SortRules)
+//@   ghost SL0 = len(builder.Kc.SortRules)
+//@   ghost A0 unsafe.Pointer = nil
+//@   oncall tool.BinarySearch
+//@     after A0 := arr(arg0)
+//@   ensures [C10] agreement: (result == nil) <==> (!blank(ruleString) && !LexErrs(ruleString) && !SynErrs(ruleString) && !SemErrs(ruleString))
+//@   ensures [C10] allornothing: result != nil ==> builder.Kc == OLD && builder.Kc.RuleEntities == RE0 && builder.Kc.SortRulesIndexMap == IM0 && arr(builder.Kc.SortRules) == SA0 && len(builder.Kc.SortRules) == SL0
+//@   ensures [C08] merged: result == nil ==> builder.Kc == OLD && wfKc(builder.Kc)
+//@   ensures [C08] view: result == nil ==> (forall k: string :: (k in builder.Kc.RuleEntities) <==> ((k in RE0) || (k in kc.RuleEntities))) && (forall k: string :: (k in kc.RuleEntities) ==> builder.Kc.RuleEntities[k] == kc.RuleEntities[k]) && (forall k: string :: (k in RE0) && !(k in kc.RuleEntities) ==> builder.Kc.RuleEntities[k] == RE0[k])
+//@   modifies builder.Kc.RuleEntities, builder.Kc.SortRules, builder.Kc.SortRulesIndexMap
+//@   loop 0 invariant a1: newRuleEntities != nil && fresh(newRuleEntities) && builder.Kc == OLD && held(builder.buildLock) && wfParsed(kc) && fresh(kc) && len(kc.RuleEntities) > 0 && true
+//@   loop 0 invariant a2: (forall k: string :: (k in newRuleEntities) ==> (k in visited) && (k in RE0) && newRuleEntities[k] == RE0[k]) && (forall k: string :: (k in visited) ==> (k in newRuleEntities))
+//@   loop 1 invariant b0: newRuleEntities != nil && fresh(newRuleEntities) && builder.Kc == OLD && held(builder.buildLock) && wfParsed(kc) && fresh(kc) && len(kc.RuleEntities) > 0 && true && (forall k: string :: ((k in newRuleEntities) <==> (k in RE0)) && ((k in RE0) ==> newRuleEntities[k] == RE0[k]))
+//@   loop 1 invariant b1: fresh(arr(newSortRules)) && lo(newSortRules) == 0 && len(newSortRules) == len(OLD.SortRules) && cap(newSortRules) >= len(newSortRules) && -1 <= rangeindex && rangeindex < len(OLD.SortRules)
+//@   loop 1 invariant b2: forall qa :: 0 <= qa && qa <= rangeindex ==> at(newSortRules, qa) == at(OLD.SortRules, lo(OLD.SortRules) + qa)
+//@   loop 1 decreases len(OLD.SortRules) - rangeindex
+//@   loop 2 invariant c0: dom(kc.RuleEntities) == rangedom && newRuleEntities != kc.RuleEntities && allocated(builder.Kc.SortRulesIndexMap) && newRuleEntities != nil && fresh(newRuleEntities) && builder.Kc == OLD && held(builder.buildLock) && wfParsed(kc) && fresh(kc) && len(kc.RuleEntities) > 0 && fresh(arr(newSortRules)) && lo(newSortRules) == 0 && cap(newSortRules) >= len(newSortRules) && builder.Kc.SortRulesIndexMap != nil
+//@   loop 2 invariant c1: Wlist(newSortRules, newRuleEntities, builder.Kc.SortRulesIndexMap)
+//@   loop 2 invariant c2: Wmap(newSortRules, newRuleEntities, builder.Kc.SortRulesIndexMap)
+//@   loop 2 invariant c3: sortedDesc(newSortRules)
+//@   loop 2 invariant c4: (forall k: string :: (k in newRuleEntities) <==> ((k in RE0) || (k in visited))) && (forall k: string :: (k in visited) ==> (k in kc.RuleEntities) && newRuleEntities[k] == kc.RuleEntities[k]) && (forall k: string :: !(k in visited) && (k in RE0) ==> newRuleEntities[k] == RE0[k])
+//@   loop 3 invariant d0: dom(kc.RuleEntities) == rangedom && newRuleEntities != kc.RuleEntities && indexMap != builder.Kc.SortRulesIndexMap && allocated(builder.Kc.SortRulesIndexMap) && newRuleEntities != nil && fresh(newRuleEntities) && builder.Kc == OLD && held(builder.buildLock) && wfParsed(kc) && fresh(kc) && len(kc.RuleEntities) > 0 && indexMap != nil && fresh(indexMap) && fresh(arr(newSortRules)) && arr(newSortRules) == A0 && lo(newSortRules) == 0 && -1 <= rangeindex && rangeindex < len(newSortRules) && (lastkey in kc.RuleEntities) && (lastkey in newRuleEntities) && builder.Kc.SortRulesIndexMap != nil && index == builder.Kc.SortRulesIndexMap[lastkey] && 0 <= index && index < len(newSortRules)
+//@   loop 3 invariant d1: sortedDesc(newSortRules) && allNonNil(newSortRules) && 0 <= ite(mid == 0, low, mid) && ite(mid == 0, low, mid) < len(newSortRules) && at(newSortRules, ite(mid == 0, low, mid)) == kc.RuleEntities[lastkey]
+//@   loop 3 invariant d2: forall qa :: 0 <= qa && qa < len(newSortRules) && qa != ite(mid == 0, low, mid) ==> (at(newSortRules, qa).RuleName in newRuleEntities) && at(newSortRules, qa).RuleName != lastkey && newRuleEntities[at(newSortRules, qa).RuleName] == at(newSortRules, qa) && builder.Kc.SortRulesIndexMap[at(newSortRules, qa).RuleName] == ite(ite(qa < ite(mid == 0, low, mid), qa, qa - 1) < index, ite(qa < ite(mid == 0, low, mid), qa, qa - 1), ite(qa < ite(mid == 0, low, mid), qa, qa - 1) + 1)
+//@   loop 3 invariant d3: forall k: string :: (k in newRuleEntities) && k != lastkey ==> newRuleEntities[k] != nil && newRuleEntities[k].RuleName == k && at(newSortRules, ite(ite(builder.Kc.SortRulesIndexMap[k] < index, builder.Kc.SortRulesIndexMap[k], builder.Kc.SortRulesIndexMap[k] - 1) < ite(mid == 0, low, mid), ite(builder.Kc.SortRulesIndexMap[k] < index, builder.Kc.SortRulesIndexMap[k], builder.Kc.SortRulesIndexMap[k] - 1), ite(builder.Kc.SortRulesIndexMap[k] < index, builder.Kc.SortRulesIndexMap[k], builder.Kc.SortRulesIndexMap[k] - 1) + 1)) == newRuleEntities[k] && 0 <= builder.Kc.SortRulesIndexMap[k] && builder.Kc.SortRulesIndexMap[k] < len(newSortRules) && builder.Kc.SortRulesIndexMap[k] != index
+//@   loop 3 invariant d4: (forall qa :: 0 <= qa && qa <= rangeindex ==> (at(newSortRules, qa).RuleName in indexMap) && indexMap[at(newSortRules, qa).RuleName] == qa) && (forall k: string :: (k in indexMap) ==> 0 <= indexMap[k] && indexMap[k] <= rangeindex && at(newSortRules, indexMap[k]).RuleName == k)
+//@   loop 3 invariant d5: (forall k: string :: (k in newRuleEntities) <==> ((k in RE0) || (k in visited) )) && (forall k: string :: (k in visited) && k != lastkey ==> (k in kc.RuleEntities) && newRuleEntities[k] == kc.RuleEntities[k]) && (forall k: string :: !(k in visited) && (k in RE0) ==> newRuleEntities[k] == RE0[k]) && (lastkey in visited) && kc.RuleEntities[lastkey] != nil && kc.RuleEntities[lastkey].RuleName == lastkey
+//@   loop 3 decreases len(newSortRules) - rangeindex
+//@   loop 4 invariant e0: dom(kc.RuleEntities) == rangedom && newRuleEntities != kc.RuleEntities && indexMap != builder.Kc.SortRulesIndexMap && allocated(builder.Kc.SortRulesIndexMap) && newRuleEntities != nil && fresh(newRuleEntities) && builder.Kc == OLD && held(builder.buildLock) && wfParsed(kc) && fresh(kc) && len(kc.RuleEntities) > 0 && indexMap != nil && fresh(indexMap) && fresh(arr(newSortRules)) && lo(newSortRules) == 0 && cap(newSortRules) >= len(newSortRules) && -1 <= rangeindex && rangeindex < len(newSortRules) && (lastkey in kc.RuleEntities) && !(lastkey in newRuleEntities) && builder.Kc.SortRulesIndexMap != nil
+//@   loop 4 invariant e1: sortedDesc(newSortRules) && allNonNil(newSortRules) && 0 <= ite(mid == 0, low, mid) && ite(mid == 0, low, mid) < len(newSortRules) && at(newSortRules, ite(mid == 0, low, mid)) == kc.RuleEntities[lastkey]
+//@   loop 4 invariant e2: forall qa :: 0 <= qa && qa < len(newSortRules) && qa != ite(mid == 0, low, mid) ==> (at(newSortRules, qa).RuleName in newRuleEntities) && newRuleEntities[at(newSortRules, qa).RuleName] == at(newSortRules, qa) && builder.Kc.SortRulesIndexMap[at(newSortRules, qa).RuleName] == ite(qa < ite(mid == 0, low, mid), qa, qa - 1)
+//@   loop 4 invariant e3: forall k: string :: (k in newRuleEntities) ==> newRuleEntities[k] != nil && newRuleEntities[k].RuleName == k && at(newSortRules, ite(builder.Kc.SortRulesIndexMap[k] < ite(mid == 0, low, mid), builder.Kc.SortRulesIndexMap[k], builder.Kc.SortRulesIndexMap[k] + 1)) == newRuleEntities[k] && 0 <= builder.Kc.SortRulesIndexMap[k] && builder.Kc.SortRulesIndexMap[k] < len(newSortRules) - 1
+//@   loop 4 invariant e4: (forall qa :: 0 <= qa && qa <= rangeindex ==> (at(newSortRules, qa).RuleName in indexMap) && indexMap[at(newSortRules, qa).RuleName] == qa) && (forall k: string :: (k in indexMap) ==> 0 <= indexMap[k] && indexMap[k] <= rangeindex && at(newSortRules, indexMap[k]).RuleName == k)
+//@   loop 4 invariant e5: (forall k: string :: (k in newRuleEntities) <==> (((k in RE0) || (k in visited)) && k != lastkey)) && (forall k: string :: (k in visited) && k != lastkey ==> (k in kc.RuleEntities) && newRuleEntities[k] == kc.RuleEntities[k]) && (forall k: string :: !(k in visited) && (k in RE0) ==> newRuleEntities[k] == RE0[k]) && (lastkey in visited) && kc.RuleEntities[lastkey] != nil && kc.RuleEntities[lastkey].RuleName == lastkey
+//@   loop 4 decreases len(newSortRules) - rangeindex
+
 //@ func (*RuleBuilder).RemoveRules$1
 //@   props C08
 //@   requires 0 <= i && i < len(newSortRuleEntities) && 0 <= j && j < len(newSortRuleEntities) && allNonNil(newSortRuleEntities)
